@@ -323,7 +323,7 @@ def gen_type(r, tbl: Table, depth, probe):
             return r.choice(SCALARS)
         if c < 0.8:
             return ("leaf", r.choice(list(LEAVES)))
-        if c < 0.9:
+        if c < 0.87:
             e = gen_enum(r, tbl, allow_flag=True)
             return ("enum", e["name"])
         return gen_literal(r, tbl)
@@ -393,10 +393,36 @@ def gen_literal(r, tbl):
         pool += [f"{name}.{m}" for m, _ in members] * 2
     n = r.choice([1, 1, 2, 2, 3, 4, 5])
     out = []
+    if r.random() < 0.5:
+        # seed the list with two members of one ==-class (they differ in type, so typing keeps both)
+        classes = {}
+        for s in dict.fromkeys(pool):
+            try:
+                v = eval(s, {name: _LitEnumProxy(tbl.by_name[name]) for name in tbl.by_name if tbl.by_name[name]["kind"] == "enum"})
+            except Exception:
+                continue
+            if isinstance(v, bytes) or v is None:
+                continue
+            classes.setdefault(v if not isinstance(v, _LitMember) else v.value, []).append(s)
+        groups = [g for g in classes.values() if len(g) > 1]
+        if groups:
+            out = r.sample(r.choice(groups), 2)
     for s in r.sample(pool, min(n, len(pool))):
         if s not in out:
             out.append(s)
     return ("lit", out)
+
+
+class _LitMember:
+    def __init__(self, value):
+        self.value = value
+
+
+class _LitEnumProxy:
+    """member values of a declared enum, for grouping literal sources by Python equality"""
+    def __init__(self, d):
+        for m, v in d["members"]:
+            setattr(self, m, _LitMember(eval(v)))
 
 
 def gen_hashable_type(r, tbl, depth, probe):
